@@ -494,6 +494,39 @@ type c06Plan struct {
 	target    int
 	chain     int // 0 = none, else operator count of a second rescale
 	nWrites   int
+	l0stack   bool // old instances checkpoint with several overlapping level-0 tables (compaction trigger out of reach)
+}
+
+var c06Filler = strings.Repeat("ab", 150) // one put of this value overfills a 200-byte memtable: rotation + flush
+
+// c06StackWrites emits rounds of small writes over a few keys of the instance, each round closed by a filler put that
+// forces a flush: with a high level-0 compaction trigger the checkpoint then holds one level-0 table per round, the
+// same keys overwritten or deleted across them, and later tables often start at smaller keys than earlier ones.
+func c06StackWrites(r *lib.Rng, ops []string, id int, rg [2]int, rounds int, written map[string]bool) []string {
+	if rg[1] <= rg[0] {
+		return ops
+	}
+	var pool []string
+	for i := 0; i < 4; i++ {
+		pool = append(pool, lib.Hex(c06Key(r.Range(rg[0], rg[1]-1), lib.Pick(r, c06Suffixes))))
+	}
+	for round := 0; round < rounds; round++ {
+		for i, n := 0, r.Range(1, 4); i < n; i++ {
+			k := lib.Pick(r, pool)
+			if r.Chance(1, 4) {
+				ops = append(ops, fmt.Sprintf("del %d %s", id, k))
+			} else {
+				ops = append(ops, fmt.Sprintf("put %d %s %s", id, k, lib.Hex(r.Bytes(r.Range(1, 5)))))
+			}
+			written[k] = true
+		}
+		if round < rounds-1 || r.Chance(1, 2) { // sometimes the last round stays in memory (WAL) only
+			k := lib.Pick(r, pool)
+			ops = append(ops, fmt.Sprintf("put %d %s %s", id, k, c06Filler))
+			written[k] = true
+		}
+	}
+	return ops
 }
 
 // c06Writes emits a random history of writes/deletes for an instance over the key groups of its range.
@@ -568,7 +601,11 @@ func c06Rescale(r *lib.Rng, ops []string, p c06Plan, oldIDs []int, oldR [][2]int
 }
 
 func c06GenCase(r *lib.Rng, p c06Plan) lib.Case {
-	c := lib.Case{Header: fmt.Sprintf("M C06 l0=%d amp=%d smallest=%d", lib.Pick(r, []int{2, 2, 3}), lib.Pick(r, []int{50, 50, 200, 1000}), lib.Pick(r, []int{1, 5000, 268435456}))}
+	l0 := lib.Pick(r, []int{2, 2, 3})
+	if p.l0stack {
+		l0 = 9
+	}
+	c := lib.Case{Header: fmt.Sprintf("M C06 l0=%d amp=%d smallest=%d", l0, lib.Pick(r, []int{50, 50, 200, 1000}), lib.Pick(r, []int{1, 5000, 268435456}))}
 	written := map[string]bool{}
 	oldR := c06GenRanges(p.kgc, p.m)
 	oldIDs := make([]int, p.m)
@@ -576,7 +613,11 @@ func c06GenCase(r *lib.Rng, p c06Plan) lib.Case {
 	for j, rg := range oldR {
 		oldIDs[j] = j
 		ops = append(ops, fmt.Sprintf("new %d %d %d %d %d", j, rg[0], rg[1], p.memOld[j], p.target))
-		ops = c06Writes(r, ops, j, rg, p.nWrites, written)
+		if p.l0stack {
+			ops = c06StackWrites(r, ops, j, rg, r.Range(2, 5), written)
+		} else {
+			ops = c06Writes(r, ops, j, rg, p.nWrites, written)
+		}
 	}
 	for j := range oldR {
 		ops = append(ops, fmt.Sprintf("ckpt %d 1", j))
@@ -600,6 +641,9 @@ func c06GenCase(r *lib.Rng, p c06Plan) lib.Case {
 	c.Tags = []string{fmt.Sprintf("m%d", p.m), fmt.Sprintf("n%d", p.n)}
 	if p.chain > 0 {
 		c.Tags = append(c.Tags, "chain")
+	}
+	if p.l0stack {
+		c.Tags = append(c.Tags, "l0stack")
 	}
 	return c
 }
@@ -685,6 +729,28 @@ func propC06() *lib.Prop {
 				"seq 100",
 			}}
 			cs = append(cs, d6)
+			// level-0 age order: the old instance checkpoints with two level-0 tables, the newer one starting at a
+			// smaller key and overwriting / deleting keys of the older one; Get must see the newer versions after a
+			// restore from several handles in either order
+			kLow, kMid, kDel, kHi := lib.Hex(c06Key(0x10, []byte("a"))), lib.Hex(c06Key(0x20, []byte("m"))), lib.Hex(c06Key(0x30, []byte("d"))), lib.Hex(c06Key(0x70, []byte("z")))
+			for _, order := range []string{"0:1,1:1", "1:1,0:1"} {
+				l0c := lib.Case{Header: "M C06 l0=9 amp=50 smallest=268435456", Tags: []string{"l0order"}, Ops: []string{
+					"new 0 0 128 200 1048576",
+					"put 0 " + kMid + " 01", "put 0 " + kDel + " 02", "put 0 " + kHi + " " + c06Filler, // table 1: kMid, kDel, kHi
+					"put 0 " + kLow + " 03", "put 0 " + kMid + " 04", "del 0 " + kDel, "put 0 " + kHi + " " + c06Filler, // table 2 starts at kLow
+					"new 1 128 256 200 1048576",
+					"put 1 " + lib.Hex(c06Key(0x90, []byte("q"))) + " 05",
+					"ckpt 0 1", "ckpt 1 1",
+					"open 100 0 256 1048576 1048576 " + order,
+					"get 100 " + kMid, "get 100 " + kDel, "get 100 " + kLow, "get 100 " + kHi, "scanown 100", "seq 100",
+					// 2 -> 3: the middle operator [86,171) restores both handles
+					"open 101 86 171 1048576 1048576 " + order,
+					"get 101 " + kHi, "scanown 101",
+					"open 102 0 86 1048576 1048576 0:1",
+					"get 102 " + kMid, "get 102 " + kDel, "get 102 " + kLow, "scanown 102",
+				}}
+				cs = append(cs, l0c)
+			}
 			return cs
 		},
 		Gen: func(r *lib.Rng, tier string, i int) lib.Case {
@@ -703,6 +769,23 @@ func propC06() *lib.Prop {
 			p.nWrites = r.Range(3, 14)
 			if r.Chance(1, 4) {
 				p.chain = r.Range(1, 4)
+			}
+			if i%3 == 1 {
+				// several overlapping level-0 tables per old instance at the checkpoint; new instances keep their writes
+				// in memory so the restored level 0 is what the reads go through
+				p.l0stack = true
+				p.chain = 0
+				p.m = r.Range(2, 4)
+				p.perm = c06RandPerm(r, p.m)
+				p.memOld = nil
+				for j := 0; j < p.m; j++ {
+					p.memOld = append(p.memOld, 200)
+				}
+				p.memNew = 1 << 20
+				p.target = 1 << 20
+				if p.n >= p.m && r.Chance(1, 2) {
+					p.n = r.Range(1, p.m-1) // scale in
+				}
 			}
 			return c06GenCase(r, p)
 		},
